@@ -7,6 +7,9 @@ CONSTANTS
   MaxItems = 3
   MaxPostErr = 0
   Mode = "intended"
+  Cap = 64
+  BufMode = "fresh"
+  RingSize = 1
   Depth = 30
 INVARIANT Emit
 CHECK_DEADLOCK FALSE
